@@ -255,6 +255,39 @@ class World:
         self.other_changed = set()
         return 'F:%s%s' % (phase, '<' if first else '>')
 
+    def unpicklable_savepoint(self):
+        """A savepoint that fails while the connection serialises its objects (new X -> new Y, then a value that
+        cannot be pickled), followed by an abort."""
+        names = []
+        obs = []
+        for _ in range(2):
+            self.n += 1
+            self.counter += 1
+            names.append('n%d' % self.n)
+            obs.append(pobj.PObj(v=self.counter))
+        X, Y = obs
+        X.child = Y
+        X.zbad = (lambda: 0)            # pickled after `child` and `v`
+        self.root[names[0]] = X
+        self.obj[names[0]] = X
+        self.obj[names[1]] = Y
+        try:
+            self.tm.savepoint()
+            fail('savepoint of an object that cannot be pickled succeeded')
+        except Exception:
+            pass
+        self.tm.abort()
+        del X.zbad
+        del X.child
+        self.work = dict(self.committed)
+        self.work_scalar = getattr(self, 'committed_scalar', None)
+        self.fresh = set()
+        self.dirty = set()
+        self.explicit = set()
+        self.sps = []
+        self.other_changed = set()
+        return 'F:sp-pickle'
+
     def unpicklable_commit(self):
         """Commit that fails while the connection serialises its objects: a new object X refers to another new
         object Y and, after it, holds a value that cannot be pickled."""
